@@ -154,6 +154,40 @@ func (r *Run) checkWritable(obj *Object) {
 	if obj.Frozen {
 		r.eng.noteFrozenWrite(r, obj)
 	}
+	if r.shareAt > 0 && obj.ID <= r.shareAt {
+		r.noteSharedWrite(obj.ID)
+	}
+}
+
+// noteSharedWrite / noteSharedRead implement the lockset discipline on objects that existed at the share
+// barrier: a write needs an exclusive lock (or to be a sync/atomic operation); a read of an object that is also
+// written during the run needs some lock.
+func (r *Run) noteSharedWrite(id int) {
+	if r.atomicDepth > 0 {
+		return
+	}
+	pos := r.eng.posString(r.curPos())
+	if r.sharedWritten == nil {
+		r.sharedWritten = map[int]string{}
+	}
+	if _, ok := r.sharedWritten[id]; !ok {
+		r.sharedWritten[id] = pos
+	}
+	if r.wlocks == 0 {
+		r.unlockedWrites = append(r.unlockedWrites, pos)
+	}
+}
+
+func (r *Run) noteSharedRead(id int) {
+	if r.atomicDepth > 0 || r.anyLocks > 0 {
+		return
+	}
+	if r.unlockedReads == nil {
+		r.unlockedReads = map[int]string{}
+	}
+	if _, ok := r.unlockedReads[id]; !ok {
+		r.unlockedReads[id] = r.eng.posString(r.curPos())
+	}
 }
 
 func (r *Run) checkMapWritable(m *MapObj) {
@@ -163,11 +197,17 @@ func (r *Run) checkMapWritable(m *MapObj) {
 	if m.Frozen {
 		r.eng.noteFrozenMapWrite(r, m)
 	}
+	if r.shareAt > 0 && m.ID <= r.shareAt {
+		r.noteSharedWrite(m.ID)
+	}
 }
 
 func (r *Run) load(p PtrV) Value {
 	if p.Obj == nil {
 		r.goPanic("nil pointer dereference")
+	}
+	if r.shareAt > 0 && p.Obj.ID <= r.shareAt {
+		r.noteSharedRead(p.Obj.ID)
 	}
 	if p.Sym == nil {
 		return nodeAt(p.Obj.Val, p.Path)
@@ -1310,6 +1350,9 @@ func (r *Run) mapLookup(m *MapObj, key Value, mt *types.Map, commaOk bool) Value
 			return TupleV{v, ok}
 		}
 		return v
+	}
+	if m != nil && r.shareAt > 0 && m.ID <= r.shareAt {
+		r.noteSharedRead(m.ID)
 	}
 	if m == nil || len(m.Keys) == 0 {
 		return ret(zero, tt.False)
